@@ -311,6 +311,11 @@ class _World:
                     HasControlledBy.register_input(inst, s_mem(op[2]), lambda *a: None)
         except Exception as e:
             info['exc'] = f'{type(e).__name__}: {str(e)[:200]}'
+            if kind == 'class':
+                # a class body that raises is outside the domain: the program ends before it (see _exec)
+                self.classes.pop()
+                self.module.pop()
+                info['abort'] = True
         return info
 
     def snapshot(self):
@@ -424,6 +429,8 @@ def _exec(case, keep_classes=None, keep_inst=None):
                     continue
                 op = [op[0], 0] + list(op[2:])
         info = w.run_op(op)
+        if info.get('abort'):
+            break
         snap = w.snapshot()
         deltas.append([[k, v] for k, v in snap.items() if prev.get(k) != v])
         prev = snap
@@ -434,6 +441,7 @@ def _exec(case, keep_classes=None, keep_inst=None):
 
 def run_case(case):
     w, infos, deltas, muts, final, _ = _exec(case)
+    case = {'ops': case['ops'][:len(infos)]}     # truncated where a class definition raised
     obs = {'ops': infos, 'deltas': deltas, 'own_mut': muts, 'ids': w.idvector(),
            'inst_shared': w.shared_with_instances()}
     # the description of every class / instance when only its own chain (and its own ops) exist
